@@ -3,7 +3,7 @@ import numpy as np
 
 
 def make_indentation(force, height, segment, time=None, spring=0.05, tip=None, path="synthetic.tab",
-                     enum=0, extra_meta=None):
+                     enum=0, extra_meta=None, tip_dtype=float):
     import nanite
     n = len(force)
     data = {"force": np.asarray(force, dtype=float),
@@ -11,7 +11,7 @@ def make_indentation(force, height, segment, time=None, spring=0.05, tip=None, p
             "segment": np.asarray(segment, dtype=np.uint8),
             "time": np.asarray(time if time is not None else np.arange(n) * 1e-3, dtype=float)}
     if tip is not None:
-        data["tip position"] = np.asarray(tip, dtype=float)
+        data["tip position"] = np.asarray(tip, dtype=tip_dtype)
     meta = {"spring constant": spring, "imaging mode": "force-distance", "path": path,
             "enum": enum, "format": "tab-separated values", "sensitivity": 5e-8,
             "software": "verif", "software version": "0"}
